@@ -22,7 +22,7 @@ RULE = (
     "valence 1..8) under relabelling / face-order / start-corner deviations <= k, compact and non-compact node sets; "
     "(c) all 6! first-access orders of {node_face, edge_face, face_face, hole_edge_indices, n_max_node_faces, "
     "n_max_face_faces}; (d) grids whose source supplies edge tables in a different edge order (from_topology kwargs), built in pristine module state and after another grid "
-    "(of different / of the same size) derived its own edge tables in the same process. "
+    "(of different / of the same size) derived its own edge tables in the same process; (e) grids read from MPAS (all / minimal optional tables, junk padding) and ICON sources written by the harness, which supply node_face / face_edge / edge_face / face_face themselves. "
     "non-trivial = >= 2 faces with at least one shared node, or an isolated face present; distinct = table content"
 )
 ASSUMPTIONS = [
@@ -60,6 +60,9 @@ def cases(tier):
         sup += ["cube", "prism", "polecap", "cornertouch", "pyr8", "icosa"]
     for name in sup:
         out.append({"kind": "supplied", "mesh": name})
+    # sources that ship their own tables through the MPAS / ICON readers
+    for name in (["pyr5", "mixedpatch", "cube", "polefan"] if tier == "quick" else ["pyr5", "mixedpatch", "cube", "polefan", "tetra", "icosa", "amstrip", "cubesplit", "isolated", "octa"]):
+        out.append({"kind": "reader", "mesh": name})
     return out
 
 
@@ -195,6 +198,38 @@ def run_case(case):
             res["outcomes"].append(digest(sorted(vals.items())))
         res["axes"] = {"orders_on": {case["mesh"]: res["evaluations"]}}
         res["sample"] = {"kind": "orders", "mesh": case["mesh"], "order": [OBS[i] for i in order]}
+        return res
+    if kind == "reader":
+        from vf.alpha import dialects as D
+
+        for fmt, kw in (("mpas", {"optional": "all"}), ("mpas", {"optional": "minimal"}), ("mpas", {"optional": "all", "padding": "junk"}), ("icon", {})):
+            if "only" in case and [fmt, kw] != case["only"]:
+                continue
+            focus = {"kind": "reader", "mesh": case["mesh"], "only": [fmt, kw]}
+            pool.fresh()
+            r = D.mpas(mesh, **kw) if fmt == "mpas" else D.icon(mesh)
+            if r is None:
+                continue
+            try:
+                g = ux.open_grid(r[0])
+            except Exception as e:
+                res["violations"].append({"oracle": "construct", "sig": "c03:reader-%s:open:%s" % (fmt, type(e).__name__), "msg": repr(e), "focus": focus})
+                continue
+            v = conn.V()
+            if conn.manifold(mesh.faces):
+                # tables supplied by the source keep the source's slot layout (ICON lists neighbours per edge slot)
+                conn.check_c03(g, mesh.faces, mesh.n_node, v, suffix_required=False)
+            conn.check_c02(g, mesh.faces, mesh.n_node, mesh.width, mesh.closed, v)
+            res["evaluations"] += 1
+            res["transitions"] += len(OBS) + 5
+            key = digest((case["mesh"], fmt, sorted(kw.items())))
+            res["states"].append(key)
+            res["nontrivial"].append(key)
+            res["outcomes"].append(digest(np.asarray(g.edge_face_connectivity.values)) if not v.items else "x")
+            for it in v.items:
+                res["violations"].append(dict(it, sig=it["sig"].replace("c03:", "c03:reader-%s:" % fmt, 1).replace("c02:", "c03:reader-%s:c02-" % fmt, 1), msg="%s source (%s): %s" % (fmt, kw, it["msg"]), focus=focus))
+        res["axes"] = {"reader_sources_on": {case["mesh"]: res["evaluations"]}}
+        res["sample"] = {"kind": "reader", "mesh": case["mesh"]}
         return res
     if kind == "supplied":
         # source supplies edge_node_connectivity in its own (shuffled / reversed) edge order,
